@@ -164,6 +164,9 @@ func Applicable(kind NodeKind, isProp bool, rules []RuleAtom) (accept, judged bo
 		case "huge-length-set":
 			return false, true, "minLength above maxLength inside an or rule set (a bound of 2^64)"
 		}
+		if o.Variant == "two-kinds-typeless-set" {
+			return false, true, "an or rule set without a type whose rules belong to two different kinds"
+		}
 		if o.Variant == "ordered-set" {
 			return false, false, "or rule set without a type: no clause on its kind"
 		}
